@@ -2,6 +2,7 @@
   Handlers for the shared ops: eval (C01/C03/C04), authz (C02/C04/C14), fold (C04 white-box).
 -/
 import CedarGo.Driver.Codec
+import Std.Data.HashMap
 namespace CedarGo.Driver
 open Lean CedarGo
 
@@ -16,23 +17,33 @@ def showAuthz (r : AuthzResult) : String :=
   let errors := sortDedup (r.errors.map fun (i, p, e) => s!"{hex i}@{showPos p}!{e.name}")
   (if r.allow then "allow" else "deny") ++ " reasons=[" ++ ",".intercalate reasons ++ "] errors=[" ++ ",".intercalate errors ++ "]"
 
-def opEval (j : Json) : D String := do
+/-- driver state: environments defined once by `defenv` and referenced by name afterwards -/
+abbrev Envs := Std.HashMap String Env
+
+def getEnv (envs : Envs) (j : Json) : D Env :=
+  match j.getObjVal? "envref" with
+  | .ok (.str k) => match envs[k]? with | some e => .ok e | none => .error s!"unknown envref {k}"
+  | _ => do decEnv (← field j "env")
+
+abbrev Handler := Envs → Json → D String
+
+def opEval : Handler := fun envs j => do
   let e ← decExpr (← field j "expr")
-  let env ← decEnv (← field j "env")
+  let env ← getEnv envs j
   .ok (showRes (eval e env))
 
 /-- one policy, evaluated unfolded (`Eval(PolicyToNode(ast))`) and folded (what `Authorize` runs) -/
-def opPolicyEval (j : Json) : D String := do
+def opPolicyEval : Handler := fun envs j => do
   let p ← decPolicy (← field j "policy")
-  let env ← decEnv (← field j "env")
+  let env ← getEnv envs j
   .ok (showBoolRes (evalBool (policyToExpr p) env) ++ " | " ++ showBoolRes (evalBool (compile p) env))
 
-def opAuthz (j : Json) : D String := do
+def opAuthz : Handler := fun envs j => do
   let ps ← decPolicies (← field j "policies")
-  let env ← decEnv (← field j "env")
+  let env ← getEnv envs j
   .ok (showAuthz (authorize ps env))
 
-def coreOps : List (String × (Json → D String)) :=
+def coreOps : List (String × Handler) :=
   [("eval", opEval), ("policy-eval", opPolicyEval), ("authz", opAuthz)]
 
 end CedarGo.Driver
